@@ -246,4 +246,4 @@ func (c *Cursor[T]) Remove() T {
 //
 //	[1, 2] *
 //	       ^--- c (c.AtEnd() == true)
-func (c *Cursor[T]) Truncate() { c.pred.link.invalidate(); c.pred.link = nil }
+func (c *Cursor[T]) Truncate() { c.pred.checkValid().link.invalidate(); c.pred.link = nil }
